@@ -24,7 +24,7 @@ COMPONENTS_REAL = ['controller_nonMPI.__init__/run/restart_block', 'Controller._
 COMPONENTS_STUB = ['none']
 ASSUMPTIONS = ['timing_* values are excluded (their keys must agree)', 'reruns on the same controller are judged for fixed-step configurations only, as the property states',
                'reference runs are isolated by fork(): the child inherits the warm parent that never constructed a controller']
-PROBES = ['rerun_same_controller', 'split_same_controller', 'split_fresh_controller', 'interleaved_other_controller', 'shared_dictionaries', 'run_after_ConvergenceError', 'initial_guess_random', 'other_interval_on_used_controller', 'run_aborted_by_user_hook', 'level_status_variable_registered']
+PROBES = ['rerun_same_controller', 'split_same_controller', 'split_fresh_controller', 'interleaved_other_controller', 'shared_dictionaries', 'run_after_ConvergenceError', 'initial_guess_random', 'other_interval_on_used_controller', 'run_aborted_by_user_hook', 'level_status_variable_registered', 'dictionaries_used_by_another_controller_before']
 
 
 def plan(tier):
@@ -81,7 +81,10 @@ def generate(seed, tier, index):
         c = r.random()
         cid = r.choice([0, 0, 1, 2])
         if cid not in live:
-            if cid in (0, 1) and r.random() < 0.15 and (1 - cid) not in live:
+            if cid in (0, 1) and r.random() < 0.15:
+                ops.append(['new_polluted', cid, r.choice(['rk', 'adaptive'])])
+                live.add(cid)
+            elif cid in (0, 1) and r.random() < 0.15 and (1 - cid) not in live:
                 ops.append(['new_shared', 0, 1])  # controllers 0 and 1 built from the same dictionaries (config 0)
                 live.update([0, 1])
             else:
@@ -156,12 +159,69 @@ def _kill_hook():
     return _KILLHOOK[0]
 
 
+def _build_polluted(cfg, kind):
+    """Build the controller of `cfg` from controller_params / sweeper_params dictionaries that were used just before to
+    construct a differently configured controller (a Runge-Kutta one, or an adaptive one that registers extra hooks and
+    convergence controllers).  pySDC's constructors write into the dictionaries they are given; the later controller must
+    not be affected."""
+    import logging
+    from pySDC.implementations.controller_classes.controller_nonMPI import controller_nonMPI
+
+    hooks = [blocksim.resolve(h) for h in cfg.get('hooks', [])] + [_kill_hook()]
+    cp = {'logger_level': 90, 'dump_setup': False, 'hook_class': hooks, **cfg.get('controller', {})}
+    swp = dict(cfg['sweeper']['params'])
+    pcls = blocksim.resolve('testequation0d')
+    other = {
+        'problem_class': pcls,
+        'problem_params': blocksim.conv_params({'lambdas': [[-1.0, 0.0]], 'u0': 1.0}),
+        'sweeper_class': blocksim.resolve('ESDIRK43' if kind == 'rk' else 'generic_implicit'),
+        'sweeper_params': swp,
+        'level_params': {'dt': 0.1, 'restol': -1.0},
+        'step_params': {'maxiter': 1 if kind == 'rk' else 3},
+    }
+    if kind == 'rk':
+        other['convergence_controllers'] = {blocksim.resolve('AdaptivityRK'): {'e_tol': 1e-5}}
+    else:
+        other['convergence_controllers'] = {blocksim.resolve('Adaptivity'): {'e_tol': 1e-5}}
+        cp_first = cp
+    try:
+        controller_nonMPI(1, cp if kind != 'rk' else dict(cp, mssdc_jac=False), other) if kind == 'rk' else controller_nonMPI(1, _with(cp, 'mssdc_jac', False), other)
+    except Exception:  # noqa: BLE001 - the throw-away controller may refuse the combination; what matters is what it left behind
+        pass
+    logging.getLogger().handlers.clear()
+    desc = {
+        'problem_class': blocksim.resolve(cfg['problem']['class']),
+        'problem_params': blocksim.conv_params(cfg['problem'].get('params', {})),
+        'sweeper_class': blocksim.resolve(cfg['sweeper']['class']),
+        'sweeper_params': swp,
+        'level_params': dict(cfg['level']),
+        'step_params': dict(cfg['step']),
+    }
+    if cfg.get('transfer'):
+        desc['space_transfer_class'] = blocksim.resolve(cfg['transfer']['class'])
+        desc['space_transfer_params'] = dict(cfg['transfer'].get('params', {}))
+    for k, v in cfg.get('controller', {}).items():
+        cp[k] = v
+    ctrl = controller_nonMPI(cfg['P'], cp, desc)
+    logging.getLogger().handlers.clear()
+    return ctrl
+
+
+def _with(d, k, v):
+    # same dictionary object, one entry changed for the throw-away controller and changed back by the caller's loop
+    d[k] = v
+    return d
+
+
 class _Ctl:
-    def __init__(self, cfg, shared=None):
+    def __init__(self, cfg, shared=None, polluted=None):
         self.cfg = cfg
         sc = {'config': cfg, 'faults': {}}
         self.ctx = blocksim.Ctx(sc, Result(), EventLog())
-        self.ctrl = blocksim.build(sc, self.ctx, plain=True, shared=shared, extra_hooks=[_kill_hook()])
+        if polluted:
+            self.ctrl = _build_polluted(cfg, polluted)
+        else:
+            self.ctrl = blocksim.build(sc, self.ctx, plain=True, shared=shared, extra_hooks=[_kill_hook()])
 
     def run(self, t0, Tend, u0=None):
         import warnings
@@ -254,6 +314,15 @@ def execute(sc):
         log.add('op', i, op)
         if name == 'new':
             ctl[op[1]] = _Ctl(cfgs[op[1]])
+            ran[op[1]] = 0
+        elif name == 'new_polluted':
+            res.probe('dictionaries_used_by_another_controller_before')
+            try:
+                ctl[op[1]] = _Ctl(cfgs[op[1]], polluted=op[2])
+            except Exception as e:  # noqa: BLE001
+                # the same description builds fine from fresh dictionaries (every other operation does it)
+                V('construction_differs', 'controller construction', f'op {i}: a controller of configuration {op[1]} cannot be built from parameter dictionaries that a {op[2]} controller was built from just before: {type(e).__name__}: {str(e)[:120]}')
+                ctl[op[1]] = _Ctl(cfgs[op[1]])
             ran[op[1]] = 0
         elif name == 'new_shared':
             shared = []
@@ -359,7 +428,7 @@ def shrink(sc):
         live = set()
         ok = True
         for o in s2['ops']:
-            if o[0] == 'new':
+            if o[0] in ('new', 'new_polluted'):
                 live.add(o[1])
             elif o[0] == 'new_shared':
                 live.update([0, 1])
